@@ -102,6 +102,109 @@ func runC09(c *Ctx) {
 	c09SharedState(c, ge, entries)
 	c09TxnByTxn(c, ge)
 	c09DeepCopies(c, ge)
+	c09DecodedOwnsMemory(c)
+}
+
+// decodedSharedOK: decoders that by design store a sub-slice of memory they do not own.
+var decodedSharedOK = map[string]string{
+	"(*rhp/v2.RPCReadResponse).DecodeFrom": "documented: the caller may supply Data as a reusable buffer; the decoder reslices it when it is large enough",
+}
+
+// c09DecodedOwnsMemory: a value produced by a decoder must not share backing memory with its siblings.
+// Every slice a decoder stores into the object it fills is freshly made, appended, returned by a call, or a
+// capacity-limited (3-index) sub-slice; a plain sub-slice x[:n] of a buffer that the decoder keeps slicing
+// leaves spare capacity that the next element occupies, so appending to one decoded proof overwrites another.
+func c09DecodedOwnsMemory(c *Ctx) {
+	n, stores := 0, 0
+	var visit func(fn *ssa.Function, owner string)
+	visit = func(fn *ssa.Function, owner string) {
+		for _, b := range fn.Blocks {
+			for _, in := range b.Instrs {
+				st, ok := in.(*ssa.Store)
+				if !ok {
+					continue
+				}
+				if _, isSlice := st.Val.Type().Underlying().(*types.Slice); !isSlice {
+					continue
+				}
+				switch st.Addr.(type) {
+				case *ssa.FieldAddr, *ssa.IndexAddr:
+				default:
+					continue
+				}
+				sl, ok := st.Val.(*ssa.Slice)
+				if !ok {
+					continue
+				}
+				// stores into a scratch local that does not escape are not part of the decoded value
+				root := st.Addr
+				for {
+					if fa, ok := root.(*ssa.FieldAddr); ok {
+						root = fa.X
+						continue
+					}
+					if ia, ok := root.(*ssa.IndexAddr); ok {
+						root = ia.X
+						continue
+					}
+					break
+				}
+				if al, ok := root.(*ssa.Alloc); ok && scratchLocal(al) {
+					continue
+				}
+				if _, xIsSlice := sl.X.Type().Underlying().(*types.Slice); !xIsSlice {
+					continue // slicing an array value
+				}
+				stores++
+				inst := owner + ":" + strings.TrimPrefix(c.P.Pos(st.Pos()), "")
+				_ = inst
+				key := owner
+				fresh := false
+				switch x := sl.X.(type) {
+				case *ssa.MakeSlice:
+					fresh = true
+				case *ssa.Call:
+					fresh = true
+					_ = x
+				}
+				ok2 := fresh || sl.Max != nil
+				if !ok2 {
+					if why, exempt := decodedSharedOK[owner]; exempt {
+						c.Info("decoded-owns-memory", key, c.P.Pos(st.Pos()), "reviewed exception: "+why)
+						continue
+					}
+				}
+				c.Check(ok2, "decoded-owns-memory", key+":"+fieldOfAddr(st.Addr), c.P.Pos(st.Pos()), ifElse(ok2, "stored sub-slice is fresh or capacity-limited", "the decoder stores a plain sub-slice of a buffer it keeps using: the stored slice's spare capacity is another decoded value's memory, so a later append to one (proof refresh) overwrites the other"))
+			}
+		}
+		for _, an := range fn.AnonFuncs {
+			visit(an, owner)
+		}
+	}
+	for _, fn := range SortedFuncs(c.P.AllFuncs()) {
+		if !c.P.InModule(fn) || fn.Synthetic != "" || fn.Parent() != nil {
+			continue
+		}
+		switch fn.Name() {
+		case "DecodeFrom", "decodeFrom", "decodeRequest", "decodeResponse", "UnmarshalJSON", "UnmarshalText":
+		default:
+			continue
+		}
+		n++
+		visit(fn, FuncName(fn))
+	}
+	c.Check(n >= 100 && stores >= 1, "decoded-owns-memory", "inventory", "", fmt.Sprintf("%d decoder functions scanned, %d stored sub-slices examined", n, stores))
+}
+
+func fieldOfAddr(a ssa.Value) string {
+	if fa, ok := a.(*ssa.FieldAddr); ok {
+		if pt, ok := fa.X.Type().Underlying().(*types.Pointer); ok {
+			if st, ok := pt.Elem().Underlying().(*types.Struct); ok {
+				return st.Field(fa.Field).Name()
+			}
+		}
+	}
+	return "elem"
 }
 
 func uniq(ss []string) []string {
@@ -711,4 +814,31 @@ func c09DeepCopies(c *Ctx, ge *GuardEngine) {
 		c.OK("copy-is-deep", "V2Transaction.DeepCopy", c.P.Pos(fn.Pos()), fmt.Sprintf("all %d reference-typed paths of V2Transaction are assigned fresh memory", len(c.P.refPaths(fn.Signature.Results().At(0).Type()))))
 	}
 	c.Extra("deepcopy_ref_paths", c.P.refPaths(fn.Signature.Results().At(0).Type()))
+}
+
+// scratchLocal: a local whose whole value is never returned, stored elsewhere or boxed (its address may be lent
+// to calls such as json.Unmarshal).
+func scratchLocal(al *ssa.Alloc) bool {
+	for _, r := range *al.Referrers() {
+		switch x := r.(type) {
+		case *ssa.UnOp:
+			for _, rr := range *x.Referrers() {
+				switch y := rr.(type) {
+				case *ssa.Return, *ssa.MakeInterface, *ssa.Phi:
+					return false
+				case *ssa.Store:
+					if y.Val == ssa.Value(x) {
+						return false
+					}
+				}
+			}
+		case *ssa.MakeClosure:
+			return false
+		case *ssa.Store:
+			if x.Val == ssa.Value(al) {
+				return false
+			}
+		}
+	}
+	return true
 }
